@@ -301,6 +301,19 @@ HOLD_SCRIPTS = [
         {"a": "write", "n": 1, "k": "k1", "var": "set"}, {"a": "write", "n": 2, "k": "k2", "var": "set"},
         {"a": "quiesce"}, {"a": "write", "n": 1, "k": "k1", "var": "set"}, {"a": "crash", "n": 2},
         {"a": "restart", "n": 2}, {"a": "write", "n": 2, "k": "k1", "var": "del"}, {"a": "quiesce"}]}),
+    # an operation removed (SIR) while a node was down must reach it through start-up recovery
+    ("d-recover-missed", {"nodes": 3, "keys": ["k1", "k2"], "steps": [
+        {"a": "crash", "n": 3}, {"a": "write", "n": 1, "k": "k1", "var": "set"}, {"a": "write", "n": 1, "k": "k1", "var": "set"},
+        {"a": "write", "n": 2, "k": "k2", "var": "set"},
+        ex(1, 2), ex(1, 2), dfb(2, 1), ex(1, 2), dfb(2, 1), ex(1, 2), dfb(2, 1), dfb(1, 2),
+        ex(2, 1), dfb(1, 2), ex(2, 1), dfb(1, 2), ex(2, 1), dfb(1, 2), ex(2, 1), dfb(1, 2), dfb(2, 1), dfb(2, 1),
+        {"a": "restart", "n": 3}, {"a": "quiesce"}]}),
+    # feedback for version 1 of a key must not count towards the removal of version 2
+    ("d-feedback-per-version", {"nodes": 3, "keys": ["k1"], "steps": [
+        {"a": "write", "n": 1, "k": "k1", "var": "set"}, ex(1, 2), ex(1, 2), ex(1, 2),
+        dfb(2, 1), dfb(2, 1), dfb(1, 2), dfb(1, 2),
+        {"a": "write", "n": 1, "k": "k1", "var": "set"}, ex(1, 2), {"a": "drop", "t": "fb", "from": 1, "to": 2},
+        ex(1, 2), dfb(2, 1), dfb(1, 2), {"a": "quiesce"}]}),
     ("d-three", {"nodes": 3, "keys": ["k1", "k2"], "steps": [
         {"a": "sub", "n": 3, "s": "p"}, {"a": "sub", "n": 3, "s": "f"},
         {"a": "write", "n": 1, "k": "k1", "var": "set"}, {"a": "write", "n": 3, "k": "k2", "var": "set"},
@@ -510,6 +523,29 @@ def run_cluster_layer(ctx, want):
     if getattr(ctx, "broken", None) and not ctx.violations:
         raise vlib.Inconclusive("; ".join(ctx.broken[:3]))
     return len(scen), accepted, stats, tv_rows, nbad
+
+
+def run_live(ctx, rounds=6):
+    """Thorough tier only: the real periodic emitter / random peer / feedback transport on two
+    nodes with a 5 ms interval. Informational for convergence time; a regress seen while polling is
+    a violation; a cluster that quiesced diverged is the stale-feedback window occurring naturally
+    (single owner per key, no restarts, two nodes: no other window is open)."""
+    out = ctx.path("live.ndjson")
+    rc, text, wall = ctx.go_test("aspen", "./internal/kv", HARNESS, "^TestVerifKVLive$",
+                                 env={"VERIF_OUT": out, "VERIF_LIVE_ROUNDS": rounds, "VERIF_LIVE_MS": 15000}, tag="live", timeout=600)
+    rows = ctx.read_ndjson(out)
+    if rc != 0 or not rows or not rows[0].get("summary"):
+        raise vlib.Inconclusive("kv live harness failed rc=%s:\n%s" % (rc, text[-2000:]))
+    res = rows[1:]
+    for r in res:
+        if r["r"] == "regress":
+            ctx.report("C06 live regress", "live 2-node cluster: " + r["what"], {"layer": "live", "row": r})
+        elif r["r"] == "diverged-quiesced":
+            ctx.report(WINDOW_SIG["StaleFeedback"] + " (live run, 5 ms gossip)", "live 2-node cluster quiesced diverged: " + r["what"],
+                       {"layer": "live", "row": r})
+        elif r["r"] in ("timeout", "error"):
+            raise vlib.Inconclusive("live run: %s" % json.dumps(r))
+    return [{"round": r["round"], "result": r["r"], "writes": r["writes"], "converge_ms": r["converge_ms"]} for r in res]
 
 
 def guarded(ctx, body):
